@@ -255,7 +255,7 @@ variance` when that is not negative); consecutive execution slots are `max 1 (fr
 in `[max 1 (f − v), max 1 (f + v)]`; and every action other than do-nothing is returned in one of these slots.
 (A slot may itself return do-nothing — start tick, failed trial — so gaps between *visible* actions are sums of
 consecutive slot gaps.) -/
-theorem C19_tap1_slot_gaps (c : Cfg) (d0 : Int) (s0 : St) (ins : List In) (h0 : init c d0 = some s0)
+theorem C19_tap1_slot_gaps (c : Cfg) (d0 : Int) (k1 k2 : Nat) (s0 : St) (ins : List In) (h0 : init c d0 k1 k2 = some s0)
     (hins : DrawsIn c ins) :
     (∀ x, (slotTimes c s0 0 ins).head? = some x → x = max 0 (c.startStep + d0)) ∧
     GapsIn (max 1 (c.frequency - c.variance)) (max 1 (c.frequency + c.variance)) (slotTimes c s0 0 ins) ∧
@@ -277,7 +277,7 @@ theorem C19_tap1_slot_gaps (c : Cfg) (d0 : Int) (s0 : St) (ins : List In) (h0 : 
 /-- Non-vacuity: start 2, frequency 3, variance 1; draws +1, −1, 0, … give slots 2, 6, 8, 11, 14. -/
 example :
     let c : Cfg := { exCfg with startStep := 2, frequency := 3, variance := 1 }
-    ∃ s0, init c 0 = some s0 ∧
+    ∃ s0, init c 0 0 0 = some s0 ∧
       slotTimes c s0 0 ((List.range 16).map fun j =>
         { exIn with d1 := if j = 2 then 1 else if j = 6 then -1 else 0 }) = [2, 6, 8, 11, 14] := by
   refine ⟨_, rfl, ?_⟩
@@ -330,8 +330,9 @@ example :
 @[simp] theorem con_scanHandler (c : Cfg) (i : In) (s : St) : (scanHandler c i s).1.concluded = s.concluded := by
   unfold scanHandler; repeat' split
   all_goals simp [St.raise]
-@[simp] theorem con_propagatePrep (s : St) : (propagatePrep s).concluded = s.concluded := by
-  unfold propagatePrep propagateReset; split <;> simp
+@[simp] theorem con_propagatePrep (c : Cfg) (s : St) : (propagatePrep c s).concluded = s.concluded := by
+  unfold propagatePrep propagateReset; repeat' split
+  all_goals simp [St.raise]
 @[simp] theorem con_propagateFirstScan (s : St) : (propagateFirstScan s).concluded = s.concluded := by
   simp [propagateFirstScan]
 @[simp] theorem con_propagate (c : Cfg) (i : In) (s : St) : (propagate c i s).concluded = s.concluded := by
@@ -455,7 +456,7 @@ theorem run_inv (c : Cfg) (P : St → Prop) (hstep : ∀ s t i, P s → P (step 
 /-- **`actions_concluded` as a run invariant** (TAP001): in every run from the constructor, whenever the flag is set,
 `repeat_kill_chain` is off and the sampled stage is SUCCEEDED or FAILED.  In particular an agent with
 `repeat_kill_chain` never concludes, and no agent concludes in the middle of its chain. -/
-theorem C19_tap1_concluded_invariant (c : Cfg) (d0 : Int) (s0 : St) (ins : List In) (h0 : init c d0 = some s0) :
+theorem C19_tap1_concluded_invariant (c : Cfg) (d0 : Int) (k1 k2 : Nat) (s0 : St) (ins : List In) (h0 : init c d0 k1 k2 = some s0) :
     ∀ s ∈ run c s0 0 ins, s.concluded = true → c.repeatKillChain = false ∧ (s.cur = .succeeded ∨ s.cur = .failed) := by
   have hinit : ConcInv c s0 := by
     unfold init at h0
@@ -600,7 +601,7 @@ theorem acts_in_slots (c : Cfg) : ∀ (ins : List In) (s : St) (t : Int) (t' : I
 /-- **Run-level schedule of TAP003** (same statement as `C19_tap1_slot_gaps`): first slot = first timestep
 `≥ start_step + d0`; consecutive slots `max 1 (frequency + d1)` apart, gaps in `[max 1 (f − v), max 1 (f + v)]`; every
 action other than do-nothing is returned in a slot. -/
-theorem C19_tap3_slot_gaps (c : Cfg) (d0 : Int) (s0 : St) (ins : List In) (h0 : init c d0 = some s0)
+theorem C19_tap3_slot_gaps (c : Cfg) (d0 : Int) (k : Nat) (s0 : St) (ins : List In) (h0 : init c d0 k = some s0)
     (hins : DrawsIn c ins) :
     (∀ x, (slotTimes c s0 0 ins).head? = some x → x = max 0 (c.startStep + d0)) ∧
     GapsIn (max 1 (c.frequency - c.variance)) (max 1 (c.frequency + c.variance)) (slotTimes c s0 0 ins) ∧
@@ -609,7 +610,7 @@ theorem C19_tap3_slot_gaps (c : Cfg) (d0 : Int) (s0 : St) (ins : List In) (h0 : 
   have hs : s0.nextExec = c.startStep + d0 ∧ 0 ≤ c.variance ∧ s0.dead = false ∧ s0.concluded = false := by
     unfold init at h0
     split at h0
-    · rename_i hv; cases h0; exact ⟨rfl, by simpa [randintOk] using hv, rfl, rfl⟩
+    · rename_i hv; cases h0; exact ⟨rfl, by simpa [randintOk] using hv.1, rfl, rfl⟩
     · cases h0
   have hL := sched_law c hs.2.1
   obtain ⟨h1, h2⟩ := (sched c).slots_spec hL ins s0 0 hins
@@ -622,7 +623,7 @@ theorem C19_tap3_slot_gaps (c : Cfg) (d0 : Int) (s0 : St) (ins : List In) (h0 : 
 /-- Non-vacuity: start 2, frequency 3, variance 1; draws +1 at step 2 and −1 at step 6 give slots 2, 6, 8, 11, 14. -/
 example :
     let c : Cfg := { exCfg with startStep := 2, frequency := 3, variance := 1 }
-    ∃ s0, init c 0 = some s0 ∧
+    ∃ s0, init c 0 0 = some s0 ∧
       slotTimes c s0 0 ((List.range 16).map fun j =>
         { exIn with d1 := if j = 2 then 1 else if j = 6 then -1 else 0 }) = [2, 6, 8, 11, 14] := by
   refine ⟨_, rfl, ?_⟩
@@ -645,7 +646,7 @@ example :
 @[simp] theorem con_manipulation (c : Cfg) (i : In) (s : St) : (manipulation c i s).concluded = s.concluded := by
   unfold manipulation; repeat' split
   all_goals simp
-@[simp] theorem con_exploitAct (r : Nat) (s : St) : (exploitAct r s).concluded = s.concluded := by
+@[simp] theorem con_exploitAct (a : Acl) (cr : Cred) (ip : Val) (s : St) : (exploitAct a cr ip s).concluded = s.concluded := by
   unfold exploitAct; split <;> simp
 @[simp] theorem con_exploitFinish (s : St) : (exploitFinish s).concluded = s.concluded := by
   unfold exploitFinish; split <;> simp
@@ -773,7 +774,7 @@ theorem run_inv (c : Cfg) (P : St → Prop) (hstep : ∀ s t i, P s → P (step 
     · exact ih _ (t + 1) (hstep s t i hp) s' hs'
 
 /-- **`actions_concluded` as a run invariant** (TAP003). -/
-theorem C19_tap3_concluded_invariant (c : Cfg) (d0 : Int) (s0 : St) (ins : List In) (h0 : init c d0 = some s0) :
+theorem C19_tap3_concluded_invariant (c : Cfg) (d0 : Int) (k : Nat) (s0 : St) (ins : List In) (h0 : init c d0 k = some s0) :
     ∀ s ∈ run c s0 0 ins, s.concluded = true → c.repeatKillChain = false ∧ (s.cur = .succeeded ∨ s.cur = .failed) := by
   have hinit : ConcInv c s0 := by
     unfold init at h0
